@@ -185,6 +185,15 @@ def order(
                     if not dependencies[dep]:
                         root_nodes.add(dep)
 
+    # A data root removed above is re-inserted right before the first of its
+    # dependents (see ``add_to_result``). If all of them were stripped as
+    # non-task leaves in a later pass, nothing would ever revisit it.
+    orphaned_data: set[Key] = set()
+    for leaf in result:
+        orphaned_data |= requires_data_task.pop(leaf, set())
+    for roots in requires_data_task.values():
+        orphaned_data -= roots
+
     num_needed, total_dependencies = ndependencies(dependencies, dependents)
     if len(total_dependencies) != len(dsk):
         cycle = getcycle(dsk, None)
@@ -538,6 +547,9 @@ def order(
     #       accounts for the already computed nodes.
     #
     # *************************************************************************
+
+    for key in orphaned_data:
+        add_to_result(key)
 
     critical_path: list[Key] = []
     cpath_append = critical_path.append
